@@ -757,4 +757,42 @@ MUTANTS = [
      "edits": [("ethercrab-wire-derive/src/generate_struct.rs", "        // Small optimisation\n        if ty_name == \"u8\" || ty_name == \"bool\" {", "        // Small optimisation (single byte types can be ORed in directly)\n        if ty_name == \"bool\" || ty_name == \"u8\" {")]},
     {"id": "n-c20-reorder-fields", "property": "C20", "neutral": True,
      "edits": [("src/pdu_loop/storage.rs", "    frame_idx: AtomicU8,\n    pdu_idx: AtomicU8,\n    is_split: AtomicBool,", "    pdu_idx: AtomicU8,\n    frame_idx: AtomicU8,\n    is_split: AtomicBool,")]},
+    {"id": "c02-init-before-claim", "property": "C02", "expect": "C02.S2|claim_created:init-after-claim",
+     "edits": [("src/pdu_loop/frame_element/created_frame.rs", """        let frame = unsafe { FrameElement::claim_created(frame, frame_index)? };
+
+        let mut inner = FrameBox::new(frame, pdu_idx, frame_data_len);
+
+        inner.init();
+""", """        let mut inner = FrameBox::new(frame, pdu_idx, frame_data_len);
+
+        inner.init();
+
+        let frame = unsafe { FrameElement::claim_created(frame, frame_index)? };
+
+        let inner = FrameBox::new(frame, pdu_idx, frame_data_len);
+""")]},
+    {"id": "c02-touch-before-claim", "property": "C02", "expect": "C02.S2|claim_created:claim-before-touch",
+     "edits": [("src/pdu_loop/frame_element/mod.rs", """        let this = unsafe { Self::swap_state(this, FrameState::None, FrameState::Created) }
+            .map_err(|e| {""", """        unsafe {
+            (*addr_of_mut!((*this.as_ptr()).pdu_payload_len)) = 0;
+        }
+
+        let this = unsafe { Self::swap_state(this, FrameState::None, FrameState::Created) }
+            .map_err(|e| {""")]},
+    {"id": "c10-wait-accepts-error", "property": "C10", "expect": "C10.waitloop",
+     "edits": [("src/subdevice_group/mod.rs", "                if self.is_state(maindevice, desired_state).await? {\n                    break Ok(());\n                }", "                if self.is_state(maindevice, desired_state).await.unwrap_or(true) {\n                    break Ok(());\n                }")]},
+    {"id": "c07-time-read-never-set", "property": "C07", "expect": "C07.cycle|SubDeviceGroup::tx_rx_dc:frmw-first",
+     "edits": [("src/subdevice_group/mod.rs", """                time = dc_pdu.and_then(|rx| u64::unpack_from_slice(&rx).map_err(Error::from))?;
+
+                time_read = true;
+            }
+
+            // If we pushed a non-zero amount of PDI bytes, process the response
+            if let Some((bytes_in_this_chunk, _pdu_handle)) = pushed_chunk {""", """                time = dc_pdu.and_then(|rx| u64::unpack_from_slice(&rx).map_err(Error::from))?;
+
+                let _ = &mut time_read;
+            }
+
+            // If we pushed a non-zero amount of PDI bytes, process the response
+            if let Some((bytes_in_this_chunk, _pdu_handle)) = pushed_chunk {""")]},
 ]
